@@ -17,3 +17,198 @@ Theorem C06_claim_progress : forall (A : Type) (ops : app_ops A) (f : fdl) (now 
              f_state f' = ClaimToken StepSecondToken.
 Proof. exact claim_progress. Qed.
 Print Assumptions C06_claim_progress.
+
+(* ========================================================================================== *)
+(* Single-station recovery mechanisms (proofs: Proofs/C06Proofs.v).  Theorems about whole polls
+   (`poll`), for ALL station states, parameters, applications, times and inputs that satisfy the stated
+   hypotheses.  `predicted f now = false` : `now` is after the recorded end of bus activity;
+   `lba_seen f now n` : last_bus_activity as the poll sees it, n new receive bytes counting as activity
+   at `now`.  NOT proved here: recovery of an N-station ring (see lib/props.py, partial_gap). *)
+From PB Require Import FdlTables Phy TokenRing FdlStepProofs C11Proofs C06Proofs.
+
+(* C06_backoff: a station that holds the token and waits for an answer - of a data request
+   (AwaitDataResponse), of a GAP poll (AwaitStatusResponse), of a GAP poll of its post-claim scan
+   (ClaimToken/ScanAwaitResponse) - and finds a complete telegram that is not this answer gives the token
+   up: ActiveIdle, nothing transmitted in that poll, no application called, ring view unchanged. *)
+Theorem C06_backoff : forall (A : Type) (ops : app_ops A) (f : fdl) (now : Z) (pin : phy_in) (apps : list A)
+                             (t : telegram) (n : nat) (f' : fdl) (o : phy_out) (a : list A) (c : list call),
+  unexpected_for f t -> tx_busy pin = false -> predicted f now = false ->
+  DecodeSpec.decode_spec (rx pin) = Accept t n ->
+  poll ops f now pin apps = Ok (f', o, a, c) ->
+  f_state f' = ActiveIdle None None 0 /\ o = mkPhyOut None (skipn n (rx pin)) /\ c = [] /\ a = apps /\
+  f_ring f' = f_ring f /\ f_p f' = f_p f.
+Proof. exact backoff. Qed.
+Print Assumptions C06_backoff.
+
+(* the hypothesis of C06_backoff is satisfiable: a token telegram is never the awaited answer *)
+Example C06_backoff_token_is_unexpected : forall f addr tk fa da sa,
+  f_state f = AwaitDataResponse addr tk fa -> unexpected_for f (TToken da sa).
+Proof. intros f addr tk fa da sa H. unfold unexpected_for. rewrite H. reflexivity. Qed.
+
+(* C06_backoff, the other token-holding states (UseToken, the transmitting steps of ClaimToken) and
+   PassToken do not read the receive buffer: new receive bytes restart the synchronisation pause, so in
+   that poll nothing is transmitted, no application is called, the bytes stay buffered, the state is kept. *)
+Theorem C06_holding_defers : forall (A : Type) (ops : app_ops A) (f : fdl) (now : Z) (pin : phy_in) (apps : list A)
+                                    (f' : fdl) (o : phy_out) (a : list A) (c : list call),
+  holds_without_reading (f_state f) = true -> tx_busy pin = false -> predicted f now = false ->
+  (f_pending f < length (rx pin))%nat ->
+  poll ops f now pin apps = Ok (f', o, a, c) ->
+  o = mkPhyOut None (rx pin) /\ a = apps /\ c = [] /\ f_state f' = f_state f /\ f_ring f' = f_ring f.
+Proof. exact holding_defers. Qed.
+Print Assumptions C06_holding_defers.
+
+(* C06_collision_leaves, as coded.  (1) ActiveIdle, closure level: a token telegram whose source is the
+   own address increments the collision counter; the first is tolerated, any further one makes the
+   station leave the ring for ListenToken (ring view and connectivity untouched).  Only token telegrams
+   are examined in ActiveIdle. *)
+Theorem C06_collision_active_idle_step : forall (A : Type) (f : fdl) (w : world A) (now : Z) (sr nps : option Z)
+                                                (cc da : Z) (il : bool) (f' : fdl) (w' : world A),
+  f_state f = ActiveIdle sr nps cc ->
+  handle_telegram A now f w (TToken da (ts f)) il = Ok (f', w') ->
+  cc + 1 <= 255 /\ f_ring f' = f_ring f /\ f_conn f' = f_conn f /\
+  f_state f' = if cc + 1 =? active_idle_collision_tolerated then ActiveIdle sr nps (cc + 1) else ListenToken None 0.
+Proof. exact handle_telegram_collision. Qed.
+Print Assumptions C06_collision_active_idle_step.
+
+(* (2) ActiveIdle, two-poll history: own address seen as token source twice in a row => out of the ring. *)
+Theorem C06_collision_active_idle : forall (A : Type) (ops : app_ops A) (f : fdl) (now1 : Z) (apps : list A)
+    (nps : option Z) (da1 : Z) (f1 : fdl) (o1 : phy_out) (a1 : list A) (c1 : list call),
+  f_conn f = ConnOnline -> f_state f = ActiveIdle None nps 0 ->
+  (forall l, f_lba f = Some l -> l < now1) -> (f_pending f < 3)%nat -> 0 < token_lost_timeout (f_p f) ->
+  poll ops f now1 (mkPhyIn false (encode_token da1 (ts f))) apps = Ok (f1, o1, a1, c1) ->
+  (f_state f1 = ActiveIdle None nps 1 /\ is_in_ring f1 = true /\ f_ring f1 = f_ring f /\ o1 = mkPhyOut None [] /\ a1 = apps /\ c1 = []) /\
+  forall now2 da2 f2 o2 a2 c2, now1 < now2 ->
+    poll ops f1 now2 (mkPhyIn false (encode_token da2 (ts f))) a1 = Ok (f2, o2, a2, c2) ->
+    f_state f2 = ListenToken None 0 /\ is_in_ring f2 = false /\ f_ring f2 = f_ring f /\ o2 = mkPhyOut None [] /\ c2 = [].
+Proof. exact collision_active_idle. Qed.
+Print Assumptions C06_collision_active_idle.
+
+(* (3) ListenToken, closure level: EVERY telegram with the own address as source counts (tokens and data
+   telegrams, addressed to anybody); the first is tolerated, the next one takes the station offline: the
+   station is re-created from its parameters (connectivity Offline, state Offline, fresh ring view). *)
+Theorem C06_collision_listen_step : forall (A : Type) (now : Z) (f : fdl) (w : world A) (t : telegram) (il : bool)
+                                           (sr : option Z) (cc : Z) (f' : fdl) (w' : world A) (u : unit),
+  f_state f = ListenToken sr cc -> f_conn f <> ConnOffline -> source_address t = Some (ts f) ->
+  listen_token_telegram A now (f, w) t il = Ok (f', w', u) ->
+  cc + 1 <= 255 /\
+  if cc + 1 =? listen_collision_tolerated
+  then f_state f' = ListenToken sr (cc + 1) /\ f_conn f' = f_conn f /\ f_ring f' = f_ring f
+  else fdl_new (f_p f) = Ok f'.
+Proof. exact listen_collision. Qed.
+Print Assumptions C06_collision_listen_step.
+
+(* (4) ListenToken, two-poll history: own address seen as source twice => offline. *)
+Theorem C06_collision_listen : forall (A : Type) (ops : app_ops A) (f : fdl) (now1 : Z) (apps : list A)
+    (buf1 : bytes) (t1 : telegram) (f1 : fdl) (o1 : phy_out) (a1 : list A) (c1 : list call),
+  f_conn f = ConnOnline -> f_state f = ListenToken None 0 ->
+  (forall l, f_lba f = Some l -> l < now1) -> f_pending f = 0%nat -> 0 < token_lost_timeout (f_p f) ->
+  DecodeSpec.decode_spec buf1 = Accept t1 (length buf1) -> source_address t1 = Some (ts f) ->
+  poll ops f now1 (mkPhyIn false buf1) apps = Ok (f1, o1, a1, c1) ->
+  (f_state f1 = ListenToken None 1 /\ f_conn f1 = ConnOnline /\ f_ring f1 = f_ring f /\ o1 = mkPhyOut None []) /\
+  forall now2 buf2 t2 f2 o2 a2 c2, now1 < now2 ->
+    DecodeSpec.decode_spec buf2 = Accept t2 (length buf2) -> source_address t2 = Some (ts f) ->
+    poll ops f1 now2 (mkPhyIn false buf2) a1 = Ok (f2, o2, a2, c2) ->
+    f_conn f2 = ConnOffline /\ f_state f2 = Offline /\ is_in_ring f2 = false /\ o2 = mkPhyOut None [].
+Proof. exact collision_listen. Qed.
+Print Assumptions C06_collision_listen.
+
+(* C06_garbage_discarded: undecodable bytes newly in the receive buffer, seen in a state that reads the
+   buffer (`listens`): the whole buffer is dropped, nothing is transmitted, no application is called, and
+   nothing of the station changes but the bus-activity bookkeeping.  (The decoder-level facts - what is
+   undecodable, resynchronisation afterwards - are C16.) *)
+Theorem C06_garbage_discarded : forall (A : Type) (ops : app_ops A) (f : fdl) (now : Z) (pin : phy_in)
+    (apps : list A) (f' : fdl) (o : phy_out) (a : list A) (c : list call),
+  listens (f_state f) = true -> f_conn f = ConnOnline ->
+  tx_busy pin = false -> predicted f now = false -> (f_pending f < length (rx pin))%nat ->
+  DecodeSpec.decode_spec (rx pin) = Reject -> 0 <= slot_time (f_p f) -> 0 < token_lost_timeout (f_p f) ->
+  poll ops f now pin apps = Ok (f', o, a, c) ->
+  same_but_lba_pending f f' /\ f_pending f' = 0%nat /\ f_lba f' = Some now /\
+  o = mkPhyOut None [] /\ a = apps /\ c = [].
+Proof. exact garbage_discarded. Qed.
+Print Assumptions C06_garbage_discarded.
+
+Example C06_garbage_example : DecodeSpec.decode_spec [0; 17; 255] = Reject.
+Proof. reflexivity. Qed.
+
+(* C06_claim_only_after_timeout (= C01_claim_stagger, first half): whatever the state and the input, a
+   poll takes the station into ClaimToken only from ListenToken / ActiveIdle (or in the poll that takes
+   it online) and only if the bus activity it has recorded - receive bytes of this very poll included -
+   lies at least its token-lost time-out in the past. *)
+Theorem C06_claim_only_after_timeout : forall (A : Type) (ops : app_ops A) (f : fdl) (now : Z) (pin : phy_in)
+    (apps : list A) (f' : fdl) (o : phy_out) (a : list A) (c : list call),
+  kind_of (f_state f) <> KClaimToken -> poll ops f now pin apps = Ok (f', o, a, c) ->
+  kind_of (f_state f') = KClaimToken ->
+  tx_busy pin = false /\ predicted f now = false /\
+  token_lost_timeout (f_p f) <= Z.abs (now - lba_seen f now (length (rx pin))) /\
+  (kind_of (f_state f) = KListenToken \/ kind_of (f_state f) = KActiveIdle \/
+   kind_of (f_state f) = KOffline \/ kind_of (f_state f) = KPassiveIdle).
+Proof. exact claim_needs_timeout. Qed.
+Print Assumptions C06_claim_only_after_timeout.
+
+(* ... in plain terms for a positive time-out: no new receive bytes in that poll, and the last recorded
+   bus activity is at least the time-out old. *)
+Theorem C06_claim_needs_silence : forall (A : Type) (ops : app_ops A) (f : fdl) (now : Z) (pin : phy_in)
+    (apps : list A) (f' : fdl) (o : phy_out) (a : list A) (c : list call),
+  0 < token_lost_timeout (f_p f) ->
+  kind_of (f_state f) <> KClaimToken -> poll ops f now pin apps = Ok (f', o, a, c) ->
+  kind_of (f_state f') = KClaimToken ->
+  (length (rx pin) <= f_pending f)%nat /\
+  exists l, f_lba f = Some l /\ l < now /\ token_lost_timeout (f_p f) <= now - l.
+Proof. exact claim_needs_silence. Qed.
+Print Assumptions C06_claim_needs_silence.
+
+(* C06_claim_stagger (= C01_claim_stagger, second half): the time-out is (6 + 2 * TS) * Tslot (constants
+   regenerated from parameters.rs), so for equal bus parameters it grows by at least two slot times per
+   address step: two listening stations never reach their time-outs together. *)
+Theorem C06_claim_stagger : forall p1 p2 : params,
+  p_baud p1 = p_baud p2 -> p_slot_bits p1 = p_slot_bits p2 -> 0 <= p_slot_bits p1 ->
+  p_address p1 < p_address p2 ->
+  token_lost_timeout p1 + 2 * (p_address p2 - p_address p1) * slot_time p1 <= token_lost_timeout p2.
+Proof. exact token_lost_timeout_stagger. Qed.
+Print Assumptions C06_claim_stagger.
+
+(* C06_lost_token_recovers_alone, PARTIAL (idle states only).  A station alone on a silent bus,
+   listening or idling in its ring with nothing pending, last recorded bus activity at l: under ANY poll
+   schedule - polls ts1 before the time-out has run out, in any number and spacing, then a poll at T at
+   or after l + token_lost_timeout (and after the synchronisation pause) - no poll panics, the early polls
+   transmit nothing and leave the state alone, and the poll at T transmits the claim token TS -> TS: the
+   station holds the token again.
+   FULL: the same from ANY state with connectivity online.  Not proved for PassToken / CheckTokenPass
+   (a stale ring view is worked off by three transmissions per listed station, C11_retry_discipline
+   describes each step; the bound over the whole LAS is missing) and for a pending status request; the
+   poll that takes the station online is the next theorem; the token-holding states hold the token already. *)
+Theorem C06_lost_token_recovers_alone_partial : forall (A : Type) (ops : app_ops A) (ts1 : list Z) (f : fdl)
+    (apps : list A) (l T : Z),
+  f_conn f = ConnOnline -> idle_state (f_state f) -> f_lba f = Some l -> time_ok l ->
+  Forall (fun t => time_ok t /\ l < t /\ t - l < token_lost_timeout (f_p f)) ts1 ->
+  time_ok T -> token_lost_timeout (f_p f) <= T - l -> l + p_bits_to_time (f_p f) sync_pause_bits < T ->
+  exists pre last,
+    run_polls ops f apps (map silent_in (ts1 ++ [T])) = Ok (pre ++ [last]) /\
+    Forall (fun s => tx (s_out s) = None /\ f_state (s_f' s) = f_state f) pre /\
+    length pre = length ts1 /\
+    s_now last = T /\ tx (s_out last) = Some (encode_token (ts f) (ts f)) /\
+    f_state (s_f' last) = ClaimToken StepSecondToken /\ have_token (f_state (s_f' last)) = true.
+Proof. exact lone_station_claims. Qed.
+Print Assumptions C06_lost_token_recovers_alone_partial.
+
+(* ... and from the moment a freshly created station is set online (state Offline, nothing recorded): the
+   first poll at t0 takes it to ListenToken and starts the time-out. *)
+Theorem C06_lost_token_recovers_alone_fresh_partial : forall (A : Type) (ops : app_ops A) (ts1 : list Z) (f : fdl)
+    (apps : list A) (t0 T : Z),
+  f_conn f = ConnOnline -> f_state f = Offline -> f_lba f = None -> 0 < token_lost_timeout (f_p f) -> time_ok t0 ->
+  Forall (fun t => time_ok t /\ t0 < t /\ t - t0 < token_lost_timeout (f_p f)) ts1 ->
+  time_ok T -> token_lost_timeout (f_p f) <= T - t0 -> t0 + p_bits_to_time (f_p f) sync_pause_bits < T ->
+  exists first pre last,
+    run_polls ops f apps (map silent_in (t0 :: ts1 ++ [T])) = Ok (first :: pre ++ [last]) /\
+    tx (s_out first) = None /\ f_state (s_f' first) = ListenToken None 0 /\
+    Forall (fun s => tx (s_out s) = None /\ f_state (s_f' s) = ListenToken None 0) pre /\
+    length pre = length ts1 /\
+    s_now last = T /\ tx (s_out last) = Some (encode_token (ts f) (ts f)) /\
+    f_state (s_f' last) = ClaimToken StepSecondToken /\ have_token (f_state (s_f' last)) = true.
+Proof. exact fresh_station_claims. Qed.
+Print Assumptions C06_lost_token_recovers_alone_fresh_partial.
+
+Example C06_lone_station_example :
+  ex_lone_trace = Ok [(KListenToken, None, 0%nat); (KListenToken, None, 0%nat); (KClaimToken, Some [220; 1; 1], 0%nat)].
+Proof. vm_compute. reflexivity. Qed.
+
